@@ -65,6 +65,11 @@ func Mermaid(spec *Spec, w io.WriteCloser, opts *MermaidOpts, fromNode, toNode s
 	// Use copies of states that don't have Name set.
 	nodes := make(map[string]*Node, len(spec.Nodes))
 	for name, n := range spec.Nodes {
+		if n == nil {
+			// A node without any content, which Compile
+			// will replace with an empty Node.
+			n = &Node{}
+		}
 		nodes[name] = n
 	}
 
